@@ -830,7 +830,11 @@ where
             match ch.try_recv() {
                 Ok(Hit(hash, entry, timestamp)) => {
                     freq.increment(hash);
-                    entry.set_last_accessed(timestamp);
+                    // A read recorded before a later update (or read) of the same
+                    // entry must not move the access time backwards.
+                    if entry.last_accessed().map_or(true, |la| la < timestamp) {
+                        entry.set_last_accessed(timestamp);
+                    }
                     if entry.is_admitted() {
                         deqs.move_to_back_ao(&entry);
                     }
